@@ -9,6 +9,7 @@ import (
 	"flag"
 	"fmt"
 	"sync"
+	"sync/atomic"
 
 	"github.com/agglayer/aggkit/aggsender"
 	"github.com/agglayer/aggkit/aggsender/types"
@@ -24,11 +25,16 @@ type behaviour struct {
 	Blocks []uint64 `json:"blocks"`
 }
 
-type fakeBlockNotifier struct{ ch chan types.EventNewBlock }
+// fakeBlockNotifier delivers the scripted blocks; like BlockNotifierPolling it records a block as current before the event is
+// delivered (cur), so a status query can see a block the epoch loop has not been handed yet.
+type fakeBlockNotifier struct {
+	ch  chan types.EventNewBlock
+	cur atomic.Uint64
+}
 
 func (f *fakeBlockNotifier) Subscribe(string) <-chan types.EventNewBlock { return f.ch }
-func (f *fakeBlockNotifier) GetCurrentBlockNumber() uint64              { return 0 }
-func (f *fakeBlockNotifier) String() string                             { return "fake" }
+func (f *fakeBlockNotifier) GetCurrentBlockNumber() uint64               { return f.cur.Load() }
+func (f *fakeBlockNotifier) String() string                              { return "fake" }
 
 // recSub records Publish calls synchronously (the property's observation point).
 type recSub struct {
@@ -97,7 +103,13 @@ func one(w *tr.W, logger *log.Logger, b behaviour) error {
 	// previous iteration (step + Publish) has returned. Each block is therefore followed by a barrier delivery of the
 	// same block number (ignored by the notifier as "no new block", and by the monitor as not increasing): when the
 	// barrier send completes, everything published for the block has been recorded.
-	for _, blk := range b.Blocks {
+	for i, blk := range b.Blocks {
+		bn.cur.Store(blk)
+		if (i+int(b.S)+int(b.N))%3 == 0 {
+			// somebody asks for the epoch status (AggSender.sendCertificate does, for its log lines) between the moment the block is
+			// recorded and the moment the epoch loop is handed its event: a query, it must not change what is announced
+			_ = en.GetEpochStatus()
+		}
 		bn.ch <- types.EventNewBlock{BlockNumber: blk}
 		bn.ch <- types.EventNewBlock{BlockNumber: blk}
 		w.Emit(tr.M{"ev": "block", "b": blk, "pub": sub.take()})
